@@ -36,6 +36,21 @@ let st1 (s : st) (o : op) : st =
   let s' = step s o in
   if errcode s' <> N0 then raise (Panic (errcode s')) else s'
 
+(* node.gc() runs the three gcs once per node tick: driver-side image of node.currentTick / node.gcTick *)
+let node_ticks = ref 0
+let node_gc_tick = ref 0
+let taken_len (s : st) : int = match List.rev (sizes s) with x :: _ -> int_of_n x | [] -> 0
+let rec upto (k : int) (n : int) : int list = if k >= n then [] else k :: upto (k + 1) n
+let propose (s : st) tag cid sid key to_ pick =
+  if to_ = N0 then (s, tag ^ "-:3")
+  else begin
+    let rid = nreqs s in
+    let s1 = st1 s (ProposeA (cid, sid, key, to_, pick)) in
+    let out = proposeB_outcome s1 in
+    let s2 = st1 s1 (ProposeB rid) in
+    (s2, Printf.sprintf "%s%s:%s" tag (si rid) (si out))
+  end
+
 let do_op (s : st) (f : string list) : st * string =
   match f with
   | ["P"; cid; sid; key; to_; pick] ->
@@ -47,6 +62,10 @@ let do_op (s : st) (f : string list) : st * string =
       let s2 = st1 s1 (ProposeB rid) in
       (s2, Printf.sprintf "P%s:%s" (si rid) (si out))
     end
+  | ["PS"; cid; reg; key; to_; pick] ->
+    let sid = if reg = "1" then ns "18446744073709551614" else ns "18446744073709551615" in
+    propose s "PS" (ns cid) sid (ns key) (ns to_) (ns pick)
+  | ["PB"; _; _; _; _] -> (s, "PB-:9")
   | ["R"; to_; pick] ->
     if ns to_ = N0 then (s, "R-:3")
     else begin
@@ -86,7 +105,31 @@ let do_op (s : st) (f : string list) : st * string =
   | ["RY"; lo; hi; idx] -> (st1 s (AddReady (ns lo, ns hi, ns idx)), "RY")
   | ["RA"; a] -> (st1 s (ReadsApplied (ns a)), "RA")
   | ["RD"; lo; hi] -> (st1 s (ReadsDropped (ns lo, ns hi)), "RD")
-  | ["T"; t] -> (st1 s (Tick (ns t)), "T")
+  | ["T"; t] -> incr node_ticks; (st1 s (Tick (ns t)), "T")
+  | ["NG"] ->
+    if !node_gc_tick = !node_ticks then (s, "NG")
+    else begin
+      node_gc_tick := !node_ticks;
+      let s1 = List.fold_left (fun s k -> st1 s (GcP (n_of_int k))) s (upto 0 (int_of_n (shards_of s))) in
+      (st1 (st1 s1 GcC) GcS, "NG")
+    end
+  | ["HR"; lo] ->
+    if taken_len s > 0 then (s, "HR")
+    else begin
+      let hi = add64 (clock_of s) (n_of_int 30) in
+      (st1 (st1 s TakeReads) (AddReads (ns lo, hi)), "HR")
+    end
+  | ["PR"; lo; hi; idx; a] | ["PR"; lo; hi; idx; a; _; _] ->
+    (* only ud.LastApplied counts; committed entries of the update are not applied yet *)
+    (st1 (st1 s (AddReady (ns lo, ns hi, ns idx))) (ReadsApplied (ns a)), "PR")
+  | ["AU"; cid; sid; key; v; rej; idx; ign] ->
+    let s1 = st1 s (ReadsApplied (ns idx)) in
+    if ign = "1" then (s1, "AU")
+    else (st1 (st1 s1 (AppliedTake (ns cid, ns sid, ns key, ns v, b01 rej))) AppliedGc, "AU")
+  | ["XN"] ->
+    let s1 = st1 s CloseR in
+    let s2 = List.fold_left (fun s k -> st1 s (CloseP (n_of_int k))) s1 (upto 0 (int_of_n (shards_of s))) in
+    (st1 (st1 (st1 s2 CloseC) CloseS) CloseL, "XN")
   | ["QS"; _] -> (s, "QS")   (* quiesce is invisible to the request tables: node.tick ticks them on every path *)
   | ["GP"; k] -> (st1 s (GcP (ns k)), "GP")
   | ["GC"] -> (st1 s GcC, "GC")
@@ -134,6 +177,7 @@ let () =
         | Some i -> String.trim (String.sub rest 0 i),
                     String.trim (String.sub rest (i + 1) (String.length rest - i - 1))
         | None -> rest, "" in
+      node_ticks := 0; node_gc_tick := 0;
       let s = ref (header head) in
       let out = Buffer.create 256 in
       let ops = if body = "" then [] else Str.split (Str.regexp_string " ; ") body in
